@@ -15,6 +15,7 @@ import ast
 from ..loops import lin, lin_sub, lin_const
 from ..model import src, walk_no_nested
 from ..resolve import bind_args
+from .. import tq
 from . import common
 
 EXPLANATION = ('static analysis: finite-abstraction interpretation of the Message-ID window tests over the CFG, '
@@ -55,6 +56,15 @@ def delta_eval(cond, msg_attr, counter):
     if flip:
         return lambda d: fn(c, d)
     return lambda d: fn(d, c)
+
+
+def increment_by_one(ctx, fi, stmt, attr):
+    """the statement stores  self.<attr> + 1  into self.<attr>  (`x = x + 1`, `x += 1`, via a local, ... alike)"""
+    from ..bounds import linear
+    sv = ctx.sval(fi)
+    me = ('attr', ('param', fi.self_name), attr)
+    vals = [v for t, v, _, st, _ in sv.stores if st is stmt and t == me]
+    return len(vals) == 1 and linear(vals[0]) == ({me: 1}, 1)
 
 
 def self_store(n, fi):
@@ -132,9 +142,7 @@ def run(ctx):
     ctx.check(len(incs) == 1, 'M1', 'exactly one statement advances peer_msg_id (%d found)' % len(incs),
               key=('M1', 'increment-count', len(incs)), site=ctx.site(preq, preq.node))
     for inc in incs:
-        f = lin(inc.ast.value, {}) if isinstance(inc.ast, ast.Assign) else (
-            {'self.peer_msg_id': 1, 1: lin_const(lin(inc.ast.value, {})) or 0} if isinstance(inc.ast.op, ast.Add) else None)
-        ctx.check(f == {'self.peer_msg_id': 1, 1: 1}, 'M1', 'peer_msg_id advances by exactly 1 (`%s`)' % src(inc.ast),
+        ctx.check(increment_by_one(ctx, preq, inc.ast, 'peer_msg_id'), 'M1', 'peer_msg_id advances by exactly 1 (`%s`)' % src(inc.ast),
                   key=('M1', 'increment-value'), site=ctx.site(preq, inc.ast))
         for h in hnodes:
             ctx.check(inc.id not in g.reach([g.entry], blocked_nodes=[h]), 'M1',
@@ -182,8 +190,7 @@ def run(ctx):
               key=('M2', 'increment-count', len(incs)), site=ctx.site(presp, presp.node))
     first = [h for h in hn2 if not any(h.id in g2.reach([o]) and o is not h for o in hn2)]
     for inc in incs:
-        f = lin(inc.ast.value, {}) if isinstance(inc.ast, ast.Assign) else None
-        ctx.check(f == {'self.my_msg_id': 1, 1: 1}, 'M2', 'my_msg_id advances by exactly 1', key=('M2', 'increment-value'),
+        ctx.check(increment_by_one(ctx, presp, inc.ast, 'my_msg_id'), 'M2', 'my_msg_id advances by exactly 1', key=('M2', 'increment-value'),
                   site=ctx.site(presp, inc.ast))
         for h in first:
             on_all = h.id not in g2.reach([g2.entry], blocked_nodes=[inc]) or \
@@ -318,42 +325,30 @@ def run(ctx):
     disp = [n for n, x in common.nodes_calling(ctx, pm, g5, lambda c, r: any(
         t.name in ('_process_request', '_process_response') for t in r.targets))]
     ctx.floor('M5 dispatch calls in process_message', len(disp), 2)
-    role = [c for c in g5.nodes if c.kind == 'cond' and isinstance(c.ast, ast.Compare)
-            and {src(c.ast.left), src(c.ast.comparators[0])} == {'message.is_initiator', 'self.is_initiator'}]
-    ctx.floor('the INITIATOR-flag test in process_message', len(role), 1, rule='M5')
-    for c in role:
-        passing = 'F' if isinstance(c.ast.ops[0], ast.Eq) else 'T'
-        for d in disp:
-            ctx.check(common.dominated_by_edge(g5, d, c, passing), 'M5',
-                      'dispatch requires the sender\'s INITIATOR flag to differ from our role',
-                      key=('M5', 'role-flag'), site=ctx.site(pm, c.ast))
-    spi = [c for c in g5.nodes if c.kind == 'cond' and isinstance(c.ast, ast.Compare)
-           and 'message.spi_i' in src(c.ast) and 'self.spi_i' in src(c.ast) and 'spi_r' in src(c.ast)]
-    exch = [c for c in g5.nodes if c.kind == 'cond' and 'exchange_type' in src(c.ast) and 'IKE_SA_INIT' in src(c.ast)]
-    ctx.floor('the SPI test in process_message', len(spi), 1, rule='M5')
-    for d in disp:
-        blocked = []
-        for c in spi:
-            lab = 'F' if isinstance(c.ast.ops[0], ast.NotEq) else 'T'
-            blocked += [(c.id, lab, m.id) for l2, m in c.succ if l2 == lab]
-        for c in exch:
-            lab = 'F' if isinstance(c.ast.ops[0], ast.NotEq) else 'T'
-            blocked += [(c.id, lab, m.id) for l2, m in c.succ if l2 == lab]
-        ctx.check(d.id not in g5.reach([g5.entry], blocked_edges=blocked), 'M5',
-                  'dispatch requires matching SPIs unless the exchange is IKE_SA_INIT', key=('M5', 'spi-test'),
-                  site=ctx.site(pm, d.ast))
-    kind = [c for c in g5.nodes if c.kind == 'cond' and src(c.ast) in ('message.is_request', 'message.is_response')]
-    ctx.floor('the request/response split in process_message', len(kind), 1, rule='M5')
-    for n, x in common.nodes_calling(ctx, pm, g5, lambda c, r: any(t.name == '_process_request' for t in r.targets)):
-        ctx.check(any(common.dominated_by_edge(g5, n, c, 'T' if src(c.ast).endswith('is_request') else 'F')
-                      for c in kind), 'M5', 'requests go to _process_request', key=('M5', 'split-request'),
-                  site=ctx.site(pm, x))
-    for n, x in common.nodes_calling(ctx, pm, g5, lambda c, r: any(t.name == '_process_response' for t in r.targets)):
-        ctx.check(any(common.dominated_by_edge(g5, n, c, 'F' if src(c.ast).endswith('is_request') else 'T')
-                      for c in kind), 'M5', 'responses go to _process_response', key=('M5', 'split-response'),
-                  site=ctx.site(pm, x))
+    PM = ctx.sval(pm)
+    msg = pm.call_params()[0]
+    ctx.require(msg == 'data', 'process_message(data) signature changed: %s' % pm.call_params())
+    dcalls = [c for c in PM.calls if any(q in ('ikesa.IkeSa._process_request', 'ikesa.IkeSa._process_response') for q in c.quals)]
+    ctx.floor('M5 dispatch calls in process_message (value terms)', len(dcalls), 2)
+    for c in dcalls:
+        m = list(c.args.values())[0] if c.args else None
+        ok = m is not None
+        E = lambda text: PM.expr(text, dict(PM.entry_env, M=m))    # noqa: E731
+        site = ctx.site(pm, c.node)
+        ctx.check(ok and tq.entails(c.pc, E('M.is_initiator != self.is_initiator')) is True, 'M5',
+                  'dispatch requires the sender\'s INITIATOR flag to differ from our role', key=('M5', 'role-flag'), site=site)
+        ctx.check(ok and tq.entails(c.pc, E('M.exchange_type == Message.Exchange.IKE_SA_INIT or '
+                                            '(M.spi_i, M.spi_r) == (self.spi_i, self.spi_r)')) is True, 'M5',
+                  'dispatch requires matching SPIs unless the exchange is IKE_SA_INIT', key=('M5', 'spi-test'), site=site)
+        isreq_ = any(q.endswith('_process_request') for q in c.quals)
+        goal = E('M.is_request') if isreq_ else E('not M.is_request')
+        alt = E('not M.is_response') if isreq_ else E('M.is_response')
+        ctx.check(ok and (tq.entails(c.pc, goal) is True or tq.entails(c.pc, alt) is True), 'M5',
+                  '%s go to %s' % ('requests' if isreq_ else 'responses', '_process_request' if isreq_ else '_process_response'),
+                  key=('M5', 'split-request' if isreq_ else 'split-response'), site=site)
     isreq = ctx.func('message.Message.is_request')
-    ctx.check(src(isreq.node.body[-1]) == 'return not self.is_response', 'M5', 'Message.is_request is `not is_response`',
+    IR = ctx.sval(isreq)
+    ctx.check(IR.ret() == IR.expr('not self.is_response'), 'M5', 'Message.is_request is `not is_response`',
               key=('M5', 'is_request'), site=ctx.site(isreq, isreq.node))
 
 
